@@ -82,13 +82,10 @@ class _Run:
         self.res.violate(P, clause, sig, msg)
         self.log.add("violation", f"{clause} {sig}")
 
-    def run(self) -> str:  # noqa: C901, PLR0912, PLR0915
+    def build_widgets(self):
         import urwid  # noqa: PLC0415
 
-        scen, res = self.scen, self.res
-        cfg = scen["config"]
-        urwid.util.set_encoding("utf-8")
-        urwid.CanvasCache.clear()
+        cfg = self.scen["config"]
         inner = build_inner(cfg["inner"])
         sc = urwid.Scrollable(inner)
         bar = None
@@ -99,6 +96,97 @@ class _Run:
             bar = urwid.ScrollBar(sc, side=cfg["bar"].get("side", "right"), width=bw)
             top = bar
         self.sc, self.inner, self.bar, self.top, self.bw = sc, inner, bar, top, bw
+        return top
+
+    # ---- full-stack run: bytes -> Screen -> MainLoop -> ScrollBar/Scrollable -> draw_screen -> RefTerm ----
+    def run_stack(self) -> str:  # noqa: C901
+        from simkit import appstack  # noqa: PLC0415
+
+        scen, res = self.scen, self.res
+        cfg = scen["config"]
+        st = cfg["stack"]
+        # a view that leaves no column for the wrapped widget is outside the checked sizes (see assumptions):
+        # a live program cannot skip a frame, so full-stack runs keep the terminal wider than the bar
+        min_cols = (cfg["bar"].get("width", 1) + 1) if cfg.get("bar") else 1
+        size = [max(min_cols, cfg["size"][0]), cfg["size"][1]]
+        first_size = list(size)
+        events = []
+        t = 0.125
+        for op in scen["ops"]:
+            k = op["op"]
+            t += float(op.get("dt", 0.25 if k == "render" else 0))
+            if k == "resize":
+                op = dict(op, size=[max(min_cols, op["size"][0]), op["size"][1]])
+            if k == "key":
+                hx = appstack.key_hex(KEYS[op["k"] % len(KEYS)])
+                if hx:
+                    events.append({"ev": "bytes", "t": t, "hex": hx})
+            elif k in ("wheel", "click"):
+                b = 1 if k == "click" else (4 if op.get("up") else 5)
+                x, y = op.get("x", 0) % size[0], op.get("y", 0) % size[1]
+                events.append({"ev": "bytes", "t": t, "hex": appstack.mouse_hex(b, x, y) + ("" if b in (4, 5) else appstack.mouse_hex(b, x, y, True))})
+            elif k == "resize":
+                size = list(op["size"])
+                events.append({"ev": "resize", "t": t, "cols": size[0], "rows": size[1]})
+            elif k in ("setpos", "content"):
+                events.append({"ev": "app", "t": t, "op": op})
+        self.stack_last = None
+
+        def apply_app(op):
+            if op["op"] == "setpos":
+                self.sc.set_scrollpos(op["p"])
+                self.log.add("setpos", op["p"])
+                if op["p"] < 0:
+                    res.probe("negative_position")
+            else:
+                self.change_content(op)
+            self.stack_last = None
+
+        def on_stable(stack):
+            if res.violations:
+                return
+            sz = tuple(stack.size())
+            n = stack.stable_points
+            last = self.stack_last if self.stack_last is not None and self.stack_last[0] == sz else None
+            self.stack_last = self.check_render(f"stable-point {n}", sz, True, last, None)
+            if self.stack_last is None or res.violations:
+                return
+            shown = stack.screen_text()
+            if shown != self.last_got_text:
+                bad = next((y for y, (a, b) in enumerate(zip(shown, self.last_got_text)) if a != b), 0)
+                self.violate("C20.1", "terminal-differs-from-canvas-when-loop-waits", f"stable point {n} size {sz}: row {bad}: terminal {shown[bad]!r} canvas {self.last_got_text[bad]!r}")
+                return
+            res.probe("stack_frame_checked_on_terminal")
+
+        stack = appstack.AppStack({"size": first_size, "loop": st.get("loop", "select"), "tiebreak": st.get("tiebreak", ())}, res, self.build_widgets, apply_app, on_stable)
+        self.log.add("cfg", ["stack", st.get("loop", "select"), repr(cfg["inner"])[:200], list(cfg["size"]), repr(cfg.get("bar"))])
+        digest = stack.run(events)
+        how, exc = stack.outcome
+        if how == "raised":
+            if isinstance(exc, core.HarnessError):
+                raise exc
+            if core.raised_in_harness(exc):
+                raise core.HarnessError(f"harness exception in full-stack run: {core.format_exc(exc)}") from exc
+            if not res.violations:
+                self.violate("C20.1", f"full-stack-run-raised:{core.exc_signature(exc)}", f"size {tuple(stack.size())}: {core.format_exc(exc)}")
+        elif how in ("livelock", "quiescent") and not res.violations:
+            self.violate("C20.1", f"full-stack-run-{how}", str(exc))
+        else:
+            res.probe("stack_run_completed")
+        self.log.add("stack-digest", digest)
+        if self.log.keep:
+            self.log.lines.extend(stack.log_lines)
+        return self.log.digest()
+
+    def run(self) -> str:  # noqa: C901, PLR0912, PLR0915
+        import urwid  # noqa: PLC0415
+
+        scen, res = self.scen, self.res
+        cfg = scen["config"]
+        urwid.util.set_encoding("utf-8")
+        urwid.CanvasCache.clear()
+        self.build_widgets()
+        sc, inner, top = self.sc, self.inner, self.top
         size = tuple(cfg["size"])
         focus = True
         self.inner_handled = None
@@ -201,6 +289,7 @@ class _Run:
             return None
         canv = top.render(size, focus)
         got = content_rows(canv)
+        self.last_got_text = [row_text(r) for r in got]
         fixed = "flow" not in inner.sizing()
         # does the bar have to be drawn?  (content rows at the full width vs view height)
         full_rows_wide = inner.pack((), focus)[1] if fixed else inner.rows((cols,), focus)
@@ -569,6 +658,11 @@ class ScrollEngine(Engine):
             else:
                 ops.append({"op": "render"})
         ops.append({"op": "render"})
+        if rng.random() < 0.15:
+            # full stack: the same history as timed external events; dt = 0 batches an event with its predecessor
+            cfg["stack"] = {"loop": rng.choice(["select", "select", "select", "asyncio", "zmq", "tornado", "twisted", "trio"]), "tiebreak": [rng.randrange(4) for _ in range(8)]}
+            for op in ops:
+                op["dt"] = 0.25 if op["op"] == "render" else rng.choice([0, 0, 0, 1 / 1024, 0.0625, 0.25])
         return {"config": cfg, "ops": ops}
 
     def generate_list(self, rng: random.Random) -> dict:
@@ -603,7 +697,7 @@ class ScrollEngine(Engine):
     def execute(self, scen: dict) -> Result:
         res = Result()
         run = (_ListRun if scen["config"]["inner"]["k"] == "listbox" else _Run)(scen, res)
-        res.digest = run.run()
+        res.digest = run.run_stack() if scen["config"].get("stack") else run.run()
         ops = [o["op"] for o in scen["ops"]]
         if ops.count("render") >= 2 and any(o in ("key", "wheel", "setpos", "resize") for o in ops):
             res.nontrivial = True
